@@ -214,8 +214,22 @@ class Parser:
             if not self.at("}"):
                 self.eat(";")
             return ("break",), False
-        if self.at("while", "for"):
-            raise Unsupported("`for` / `while let` loops are outside the translated subset")
+        if self.at("for"):
+            self.eat()
+            var = self.eat()[1]
+            self.eat("in")
+            it = self.expr(nostruct=True)
+            rev = False
+            if it[0] == "mcall" and it[2] == "rev" and not it[3]:
+                rev, it = True, it[1]
+            while it[0] == "paren":
+                it = it[1]
+            if it[0] != "range":
+                raise Unsupported("`for` over anything but a range `a..b` or `(a..b).rev()`")
+            b = self.block()
+            return ("for", var, it[1], it[2], rev, b), False
+        if self.at("while"):
+            raise Unsupported("`while let` loops are outside the translated subset")
         e = self.expr()
         if self.at("=", "+=", "-=", "*=", "/=", "%=", "&=", "|=", "^=", "<<=", ">>=") and self.peek()[0] == "op":
             op = self.eat()[1]
@@ -543,6 +557,8 @@ class Emitter:
         self.ret = None
         self.loop = None          # inside a loop body: the tuple pattern of the loop state
         self.nloops = 0
+        self.nested_opt = 0       # inside a value-producing nested block that contains `?`: the block yields an Option
+        self.nmatch = 0
 
     def fresh(self):
         self.n += 1
@@ -564,6 +580,10 @@ class Emitter:
 
     def wrap_return(self, val, ty):
         """a `return` statement, or the value at the end of the function body"""
+        if self.nested_opt:
+            if val != "none":
+                raise Unsupported("`return` of a value inside a nested block that also uses `?`")
+            return "pure none"
         if self.loop is not None:
             return "pure (Ctl.ret %s)" % self.ret_expr(val, ty)
         return "return %s" % self.ret_expr(val, ty)
@@ -721,7 +741,7 @@ class Emitter:
             if not (ty and ty[0] == "O"):
                 raise Unsupported("`?` on a non-Option")
             t = self.fresh()
-            pre.append(("try", t, v))
+            pre.append(("try", t, v, self.wrap_return("none", ("O", None))))
             return t, ty[1]
         if k == "if":
             return self.if_expr(e, pre, want)
@@ -946,6 +966,8 @@ class Emitter:
                 self.assigned_expr(s[1], acc)
             elif s[0] == "while":
                 self.assigned(s[2], acc)
+            elif s[0] == "for":
+                self.assigned(s[5], acc)
             elif s[0] == "let":
                 pass
         if block[2] is not None:
@@ -1038,7 +1060,7 @@ class Emitter:
                 out.append(ind + p)
             elif p[0] == "try":
                 # `?` on Option: the rest of the function is the `some` continuation — handled by the caller
-                out.append(("try", p[1], p[2], ind))
+                out.append(("try", p[1], p[2], ind, p[3]))
             elif p[0] == "ifm":
                 _, t, c, p1, a, p2, b = p
                 out.append(ind + "let %s ← (if %s then do" % (t, c))
@@ -1074,7 +1096,10 @@ class Emitter:
             pre = []
             k = s[0]
             if k == "let":
-                v, ty = self.expr(s[3], pre, s[2])
+                hint = s[2]
+                if hint is None and s[1][0] == "pvar":
+                    hint = self.cfg.get("local_types", {}).get(s[1][1])        # an untyped literal whose type rustc infers later
+                v, ty = self.expr(s[3], pre, hint)
                 self.flush(pre, out, ind)
                 self.bind_pat(s[1], v, s[2] or ty, out, ind)
             elif k == "assign":
@@ -1090,6 +1115,9 @@ class Emitter:
                 return
             elif k == "while":
                 self.while_stmt(s, (stmts[idx + 1:], tail), out, ind, is_fn_body)
+                return
+            elif k == "for":
+                self.for_stmt(s, (stmts[idx + 1:], tail), out, ind, is_fn_body)
                 return
             elif k == "return" and s[1] is not None and self.ok_value(s[1]) is not None:
                 v, ty = self.expr(self.ok_value(s[1]), pre, self.ret)
@@ -1274,6 +1302,71 @@ class Emitter:
         known = {v[0] for v in self.env.values()}
         return {n for n in names if n in known or n.startswith("self_")}
 
+    def for_stmt(self, st, rest, out, ind, is_fn_body):
+        """`for x in a..b { body }` / `for x in (a..b).rev() { body }`: `loopM` over a counter and the variables the body
+        assigns; the iteration bound is the length of the range plus one"""
+        _, var, lo, hi, rev, body = st
+        pre = []
+        a, _ = self.expr(lo, pre, U)
+        b, _ = self.expr(hi, pre, U)
+        self.flush(pre, out, ind)
+        self.nloops += 1
+        n = self.nloops
+        out.append(ind + "let for_lo%d := %s" % (n, a))
+        out.append(ind + "let for_hi%d := %s" % (n, b))
+        vs = sorted(self.in_scope(self.assigned(body, set())))
+        cnt = "for_i%d" % n
+        pat = cnt if not vs else "(" + ", ".join([cnt] + vs) + ")"
+        rty = self.cfg["_rty"]
+        lr = "lr%d" % n
+        out.append(ind + "let %s ← loopM (ρ := %s) (for_hi%d - for_lo%d + 1) (fun %s => do" % (lr, rty, n, n, pat))
+        saved_env, saved_loop = dict(self.env), self.loop
+        if not rev:
+            nxt = "(" + ", ".join(["%s + 1" % cnt] + vs) + ")" if vs else "(%s + 1)" % cnt
+            out.append(ind + "    if (decide (%s < for_hi%d)) then do" % (cnt, n))
+            out.append(ind + "      let %s := %s" % (lname(var), cnt))
+        else:
+            nxt = "(" + ", ".join(["%s - 1" % cnt] + vs) + ")" if vs else "(%s - 1)" % cnt
+            out.append(ind + "    if (decide (for_lo%d < %s)) then do" % (n, cnt))
+            out.append(ind + "      let %s := %s - 1" % (lname(var), cnt))
+        self.env[var] = (lname(var), U)
+        self.loop = nxt
+        nb = self.norm(body)
+        self.stmts(nb[1], None, out, ind + "      ", True)
+        out.append(ind + "    else do")
+        out.append(ind + "      pure (Ctl.brk %s)) %s" % (pat, ("(" + ", ".join(["for_lo%d" % n if not rev else "for_hi%d" % n] + vs) + ")") if vs
+                                                        else ("for_lo%d" % n if not rev else "for_hi%d" % n)))
+        self.env, self.loop = saved_env, saved_loop
+        has_ret = self.contains_return(body) or self.contains_try(body)
+        if not is_fn_body:
+            if has_ret:
+                raise Unsupported("`return` / `?` inside a loop that is nested in a non-final block")
+            out.append(ind + "let %s ← (match %s with | .brk st => pure st | .next _ => fault .fuel | .ret _ => fault .fuel)" % (pat, lr))
+            self.stmts(rest[0], rest[1], out, ind, is_fn_body)
+            return
+        out.append(ind + "match %s with" % lr)
+        if not has_ret:
+            out.append(ind + "| .ret _ => fault .fuel")
+        elif self.loop is not None:
+            out.append(ind + "| .ret r => pure (Ctl.ret r)")
+        else:
+            out.append(ind + "| .ret r => return r")
+        out.append(ind + "| .next _ => fault .fuel")
+        out.append(ind + "| .brk %s => do" % pat)
+        n0 = len(out)
+        self.stmts(rest[0], rest[1], out, ind + "  ", is_fn_body)
+        if len(out) == n0:
+            out.append(ind + "  pure ()")
+
+    def contains_try(self, block):
+        def walk(e):
+            if not isinstance(e, tuple):
+                return False
+            if e and e[0] == "try":
+                return True
+            return any(walk(x) if isinstance(x, tuple) else (any(walk(y) for y in x) if isinstance(x, list) else False) for x in e[1:])
+        return any(walk(st) for st in block[1]) or (block[2] is not None and walk(block[2]))
+
     def contains_break(self, block):
         def in_expr(e):
             if e[0] == "if":
@@ -1301,6 +1394,8 @@ class Emitter:
             if s[0] == "return":
                 return True
             if s[0] == "while" and self.contains_return(s[2]):
+                return True
+            if s[0] == "for" and self.contains_return(s[5]):
                 return True
             if s[0] == "expr" and in_expr(s[1]):
                 return True
@@ -1353,6 +1448,31 @@ class Emitter:
             self.assigned(else_b, vs)
         vs = sorted(self.in_scope(vs))
         pat = "()" if not vs else (vs[0] if len(vs) == 1 else "(" + ", ".join(vs) + ")")
+        has_try = self.contains_try(then_b) or (else_b is not None and self.contains_try(else_b))
+        if has_try:
+            # a `?` inside a branch: the branch yields `some state`, or `none` for "return None from the function"
+            self.nmatch += 1
+            r = "opt%d" % self.nmatch
+            out.append(ind + "let %s ← (if %s then do" % (r, c))
+            saved = dict(self.env)
+            self.nested_opt += 1
+            self.stmts(then_b[1], None, out, ind + "    ", False)
+            out.append(ind + "    pure (some %s)" % pat)
+            self.env = dict(saved)
+            out.append(ind + "  else do")
+            if else_b:
+                self.stmts(else_b[1], None, out, ind + "    ", False)
+            out.append(ind + "    pure (some %s))" % pat)
+            self.nested_opt -= 1
+            self.env = saved
+            out.append(ind + "match %s with" % r)
+            out.append(ind + "| none => %s" % self.wrap_return("none", ("O", None)))
+            out.append(ind + "| some %s => do" % pat)
+            n0 = len(out)
+            self.stmts(rest[0], rest[1], out, ind + "  ", is_fn_body)
+            if len(out) == n0:
+                out.append(ind + "  pure ()")
+            return True
         out.append(ind + "let %s ← (if %s then do" % (pat, c))
         saved = dict(self.env)
         self.stmts(then_b[1], None, out, ind + "    ", False)
@@ -1367,18 +1487,29 @@ class Emitter:
 
 
 def resolve_tries(lines):
-    """`("try", t, v, ind)` markers become a match whose `some` branch holds every following line"""
-    out = []
-    for i, l in enumerate(lines):
+    """`("try", t, v, ind, rettext)` markers become a match whose `some` branch holds the rest of the enclosing block
+    (the following lines that are indented at least as deep as the marker)"""
+    def indent_of(l):
         if isinstance(l, tuple):
-            _, t, v, ind = l
+            return len(l[3])
+        return len(l) - len(l.lstrip(" "))
+    out, i = [], 0
+    while i < len(lines):
+        l = lines[i]
+        if isinstance(l, tuple):
+            _, t, v, ind, rettext = l
+            j = i + 1
+            while j < len(lines) and indent_of(lines[j]) >= len(ind):
+                j += 1
+            inner = resolve_tries(lines[i + 1:j])
             out.append(ind + "match %s with" % v)
-            out.append(ind + "| none => return none")
+            out.append(ind + "| none => %s" % rettext)
             out.append(ind + "| some %s => do" % t)
-            rest = resolve_tries(lines[i + 1:])
-            out.extend("  " + r for r in rest)
-            return out
-        out.append(l)
+            out.extend("  " + r for r in inner)
+            i = j
+        else:
+            out.append(l)
+            i += 1
     return out
 
 
